@@ -37,6 +37,7 @@ using namespace verif;
 namespace IR = Oomd::Config2::IR;
 
 static std::string g_rsName = "r0", g_dgName = "g0";
+static bool g_lastAsync = false; // the kill plugin's last run() returned ASYNC_PAUSED (a hook is outstanding / second sampling tick)
 static bool g_inRun = false; // inside the kill plugin's run(): mid-run environment events are injected only here
 // ---------------------------------------------------------------- wrapper plugin
 // Forwards everything to a real plugin created from the registry and logs run entry / result.
@@ -65,6 +66,7 @@ class WrapPlugin : public Oomd::Engine::BasePlugin {
     g_inRun = true;
     auto r = inner_->run(ctx);
     g_inRun = false;
+    g_lastAsync = (int)r == 2;
     static const char* names[] = {"CONTINUE", "STOP", "ASYNC"};
     evEmit(J().str("e", "KRet").str("ret", names[(int)r]).num("t", vclockNowMs()));
     return r;
@@ -252,6 +254,7 @@ int main(int argc, char** argv) {
 
   for (int scn = firstScn; scn < firstScn + nScn; scn++) {
     Driver D(seed * 7919ULL + scn);
+    g_lastAsync = false;
     Rng& r = D.r;
     D.hardPct = profile == "c07" ? 25 : profile == "c01" || profile == "c03" || profile == "c17" ? 15 : 8;
     I.base = D.fs.base();
@@ -462,7 +465,27 @@ int main(int argc, char** argv) {
         if (was) evEmit(J().str("e", "KEmpty").raw("p", pathChars(q)).str("mode", emptyMode));
       }
     };
+    // ----- a child cgroup vanishes inside the tick, right when oomd is about to open it through its parent's directory
+    // (its name may already be in the parent's listing): in prerun or in the walk, before anything was attempted.
+    // Only with patterns that reach depth >= 2 by descending (no '/' in any pattern), so that it is no candidate yet.
+    bool flatPats = true; for (auto& p : pats) if (p.find('/') != std::string::npos) flatPats = false;
+    int gonePct = flatPats && recursive ? r.pick(std::vector<int>{0, 30, 60}) : 0;
+    bool goneArmed = false, attemptSeen = false; int goneCountdown = 0;
+    ctx.setPrekillHooksHandler([&](const Oomd::CgroupContext& cg) { attemptSeen = true; return engine->firePrekillHook(cg, ctx); });
     I.onOpen = [&](const std::string& path, int flags) -> int {
+      if (goneArmed && !attemptSeen && I.openIsRelative && (flags & O_DIRECTORY)) {
+        const std::string& root0 = D.fs.root();
+        std::string rel0 = path.size() > root0.size() + 1 ? path.substr(root0.size() + 1) : "";
+        if (D.w.nodes.count(rel0) && rel0.find('/') != std::string::npos && goneCountdown-- <= 0) {
+          goneArmed = false;
+          std::vector<std::string> gone;
+          for (auto& [q, m] : D.w.nodes) if (q == rel0 || q.compare(0, rel0.size() + 1, rel0 + "/") == 0) gone.push_back(q);
+          for (auto& q : gone) D.w.nodes.erase(q);
+          D.fs.rmcg(rel0);
+          evEmit(J().str("e", "KGone").raw("p", pathChars(rel0)));
+          return 0;
+        }
+      }
       if (!g_inRun || emptyMode.empty()) return 0;
       const std::string& root = D.fs.root();
       if (path.compare(0, root.size() + 1, root + "/") != 0) return 0;
@@ -519,7 +542,7 @@ int main(int argc, char** argv) {
       long long v = kind == "uuid" ? internUuid(val) : atoll(val.c_str());
       evEmit(J().str("e", "X").str("kind", kind).str("ns", ns).raw("p", pathChars(rel)).num("v", v)); } };
     // poll the xattr store for changes after each tick is too late for ordering; use a hook in setxattr
-    g_onSetXattr = [&](const std::string& p, const std::string& n, const std::string& v) { XLog::emit(D, p, n, v); };
+    g_onSetXattr = [&](const std::string& p, const std::string& n, const std::string& v) { attemptSeen = true; XLog::emit(D, p, n, v); };
 
     std::map<std::string, int> hookPolls; // "hook|cgroup" -> polls
     setHookDecider([&](const std::string&, const std::string&) { return r.pick(std::vector<int>{0, 0, 1, 2, 3, -1}); });
@@ -572,6 +595,8 @@ int main(int argc, char** argv) {
       evEmit(J().str("e", "KEnv").num("t", vclockNowMs()).raw("world", D.worldJson()));
       ctx.refresh();
       ctx.bumpCurrentTick();
+      // (not in a tick that resumes a suspended kill cycle: its candidates were chosen ticks ago)
+      goneArmed = r.chance(gonePct) && !g_lastAsync; goneCountdown = r.upto(3); attemptSeen = false;
       emptyMode.clear();
       if (r.chance(emptyPct)) {
         emptyMode = r.pick(std::vector<std::string>{"kth", "kth", "freeze", "procs", "events"});
@@ -579,7 +604,7 @@ int main(int argc, char** argv) {
       }
       engine->prerun(ctx);
       engine->runOnce(ctx);
-      emptyMode.clear();
+      emptyMode.clear(); goneArmed = false;
       auto st = Oomd::getStats();
       evEmit(J().str("e", "KStat").num("kills", st[Oomd::CoreStats::kKillsKey]).num("t", vclockNowMs()));
     }
